@@ -591,6 +591,16 @@ func (h *supH) armedCtxs() []string {
 	return l
 }
 
+// shutdownWaiting: some thread is parked inside ShutDownProject waiting for its waiters
+func (h *supH) shutdownWaiting() bool {
+	for _, t := range verif.S.Threads() {
+		if !t.Done && t.Label == "shutdown:wg" {
+			return true
+		}
+	}
+	return false
+}
+
 func (h *supH) enabledKeys() []string {
 	ts, keys := h.threadKeys()
 	en := map[*verif.Thread]bool{}
@@ -750,6 +760,10 @@ func (h *supH) runScenario(r *rand.Rand, gran string, ordered bool, procs []genP
 			tgt := append(append([]string{}, names...), "zz")[r.Intn(len(names)+1)]
 			ops := []string{"start " + tgt, "stop " + tgt, "restart " + tgt, "state " + tgt, "shutdown"}
 			cands = append(cands, cand{fmt.Sprintf("s call %d %s", h.apiN+1, ops[r.Intn(len(ops))]), 2})
+		}
+		if len(h.enabledKeys()) == 0 && len(h.aliveNames()) > 0 && len(h.armedCtxs()) == 0 && h.shutdownWaiting() && r.Intn(2) == 0 {
+			reason = "stalled"
+			break
 		}
 		if len(cands) == 0 || (len(h.enabledKeys()) == 0 && len(h.aliveNames()) == 0 && len(h.armedCtxs()) == 0 && (apiBudget == 0 || r.Intn(2) == 0)) {
 			reason = "quiescent"
